@@ -154,36 +154,50 @@ def _sequential(env, tag, name, items, timeout):
     return errs
 
 
+CHUNK = 300          # lines per process: bounds the scratch footprint (a sharpened result folder is ~2.5 MB)
+
+
 def run_lines(env, tag, lines, conc=16, timeout=900):
-    """runs the batch lines (each with its own result folder <tag>/l<i>); returns [Run].  When a line ends the
-    whole process, everything is run again in `conc` sequential workers that isolate such lines."""
+    """runs the batch lines (each with its own result folder <tag>/l<i>); returns [Run] with the sha256 of every result
+    file.  The lines are processed in chunks; a chunk's result folders are digested and DELETED before the next chunk
+    starts (first_diff re-runs the two lines it is asked about).  When a line ends the whole process, its chunk is run
+    again in `conc` sequential workers that isolate such lines."""
     root = os.path.join(env.ex, tag)
     shutil.rmtree(root, ignore_errors=True)
+    if not hasattr(env, "lines_of"):
+        env.lines_of = {}
+    env.lines_of[tag] = list(lines)
     items = list(enumerate(lines))
+    runs = []
     t0 = time.time()
-    died, errs, tail = _batch(env, tag, "batch", items, conc, timeout)
-    if died and len(lines) > 1:
+    for c0 in range(0, len(items), CHUNK):
+        chunk = items[c0:c0 + CHUNK]
+        died, errs, tail = _batch(env, tag, "batch", chunk, conc, timeout)
+        if died and len(chunk) > 1:
+            shutil.rmtree(root, ignore_errors=True)
+            from concurrent.futures import ThreadPoolExecutor
+            parts = [chunk[k::conc] for k in range(conc)]
+            with ThreadPoolExecutor(max_workers=conc) as ex:
+                res = list(ex.map(lambda kp: _sequential(env, tag, "w%d" % kp[0], kp[1], timeout), [(k, p_) for k, p_ in enumerate(parts) if p_]))
+            errs = {}
+            for e in res:
+                errs.update(e)
+        elif died:
+            errs[chunk[0][0]] = "process died " + tail
+        for i, l in chunk:
+            r = Run(); r.idx = i; r.line = l
+            r.files = _digest(os.path.join(root, "l%d" % i))
+            if i in errs:
+                r.err = errs[i]
+            elif not r.files:
+                r.err = "no result files"
+            runs.append(r)
         shutil.rmtree(root, ignore_errors=True)
-        from concurrent.futures import ThreadPoolExecutor
-        parts = [items[k::conc] for k in range(conc)]
-        with ThreadPoolExecutor(max_workers=conc) as ex:
-            res = list(ex.map(lambda kp: _sequential(env, tag, "w%d" % kp[0], kp[1], timeout), [(k, p_) for k, p_ in enumerate(parts) if p_]))
-        errs = {}
-        for e in res:
-            errs.update(e)
-    elif died:
-        errs[0] = "process died " + tail
+        for fn in os.listdir(env.ex):
+            if fn.startswith(tag + "_") and fn.endswith(".txt"):
+                os.remove(os.path.join(env.ex, fn))
     env.run_wall += time.time() - t0
     env.runs += len(lines)
-    runs = []
-    for i, l in items:
-        r = Run(); r.idx = i; r.line = l
-        r.files = _digest(os.path.join(root, "l%d" % i))
-        if i in errs:
-            r.err = errs[i]
-        elif not r.files:
-            r.err = "no result files"
-        runs.append(r)
     return runs
 
 
@@ -200,22 +214,35 @@ def diff_what(a, b):
 
 
 def first_diff(env, tag, i, j):
-    """first differing line of the daily file of runs i and j of one run_lines call (for replays)"""
+    """first differing line of the result files of lines i and j of a run_lines call (the two lines are run again:
+    result folders are not kept)"""
     import glob
-    for fa in sorted(glob.glob(os.path.join(env.ex, tag, "l%d" % i, "*"))):
-        fb = os.path.join(env.ex, tag, "l%d" % j, os.path.basename(fa))
+    ls = getattr(env, "lines_of", {}).get(tag)
+    if not ls:
+        return ""
+    ftag = tag + "fd"
+    root = os.path.join(env.ex, ftag)
+    shutil.rmtree(root, ignore_errors=True)
+    _batch(env, ftag, "batch", [(0, ls[i]), (1, ls[j])], 2, 600)
+    out = ""
+    for fa in sorted(glob.glob(os.path.join(root, "l0", "*"))):
+        fb = os.path.join(root, "l1", os.path.basename(fa))
         if not os.path.exists(fb):
-            return "%s missing" % os.path.basename(fa)
+            out = "%s missing" % os.path.basename(fa); break
         la, lb = open(fa, errors="replace").read().split("\n"), open(fb, errors="replace").read().split("\n")
         for n, (x, y) in enumerate(zip(la, lb)):
             if x != y:
                 tx, ty = x.split(), y.split()
                 col = next((k for k, (u, v) in enumerate(zip(tx, ty)) if u != v), -1)
-                return "%s line %d (first column %s) col %d: %s | %s" % (os.path.basename(fa), n + 1, (tx[:1] or [""])[0], col,
-                                                                         " ".join(tx[max(col, 0):col + 2])[:60], " ".join(ty[max(col, 0):col + 2])[:60])
+                out = "%s line %d (first column %s) col %d: %s | %s" % (os.path.basename(fa), n + 1, (tx[:1] or [""])[0], col,
+                                                                        " ".join(tx[max(col, 0):col + 2])[:60], " ".join(ty[max(col, 0):col + 2])[:60])
+                break
+        if out:
+            break
         if len(la) != len(lb):
-            return "%s: %d vs %d lines" % (os.path.basename(fa), len(la), len(lb))
-    return ""
+            out = "%s: %d vs %d lines" % (os.path.basename(fa), len(la), len(lb)); break
+    shutil.rmtree(root, ignore_errors=True)
+    return out
 
 
 # ------------------------------------------------------------------------------------------------
